@@ -205,6 +205,52 @@ def main():
                 print(f"VIOLATION property={prop} replay={p} no-failing-input-found")
             violations += 1
 
+    # ---- 4b'. C02: re-entrant user code (a body calls Invoke on the container).  The model has no
+    #      re-entrant bodies: only the checker runs, on the implementation's trace.
+    reent_cov = None
+    if prop == "C02" and core_ok:
+        recases = load_corpus("C02-reentrant") + gen.generate_reentrant(seed, 200 if tier == "quick" else 6000)
+        recases, retraces = common.run_impl_parallel(recases)
+
+        def re_eval(cs, ts):
+            out = []
+            for lo in range(0, len(cs), 250):
+                src = emit.cases_file(list(zip(cs[lo:lo + 250], ts[lo:lo + 250])), extra="Spec Check Cases",
+                                      defs=["Definition V := Eval vm_compute in viol_all (fun c obs => chk_C02 (cs_hist c) obs) all_cases.", "Print V."])
+                o = common.coq_eval(src, timeout=3000)
+                out += [(lo + a[0],) + tuple(a[1:]) for a in common.parse_pairs(common.parse_printed(o, "V"))]
+            return out
+        reV = re_eval(recases, retraces)
+        nested_runs = sum(1 for c, t in zip(recases, retraces) for f in c["fns"] if f.get("nested")
+                          for ot in t["ops"] for ev in ot["events"] if ev["ev"] == "exec" and ev["f"] in [n["fn"] for n in f["nested"]])
+        reent_cov = dict(histories=len(recases), nested_invokes_that_ran_their_function=nested_runs,
+                         checker_failures=len(reV),
+                         note="bodies that call Invoke re-entrantly are outside the model; chk_C02 is evaluated on the implementation's trace only")
+        seen_codes = set()
+        for (ci, oi, code) in reV:
+            if code in seen_codes:
+                continue
+            seen_codes.add(code)
+
+            def repred(cand, code=code):
+                cs, ts = common.run_impl([cand])
+                return any(x[2] == code for x in re_eval(cs, ts))
+            small = recases[ci]
+            try:
+                small = shrink(spec, recases[ci], repred)
+                keep = {o.get("fn") for o in small["ops"]}
+                keep |= {n["fn"] for f in recases[ci]["fns"] if f["id"] in keep for n in f.get("nested", [])}
+                small = dict(small, fns=[f for f in recases[ci]["fns"] if f["id"] in keep])
+            except Exception as e:
+                common.log("shrink failed:", e)
+            cs, ts = common.run_impl([small])
+            p = write_replay(prop, f"reentrant-{code}-{case_hash(small)}",
+                             {"property": prop, "failing_code": code, "meaning": props.CODES.get(code, ""),
+                              "note": "functions with a `nested` entry call <scope>.Invoke(<fn>) from inside their body during the given execution",
+                              "case": cs[0], "implementation_trace": ts[0]})
+            print(f"VIOLATION property={prop} replay={p}")
+            violations += 1
+
     # ---- 4c. C14 / C18: the grammar stream against Parse.v (DryRun container)
     raw_cov = None
     if prop in ("C14", "C18") and all(f in built for f in ("GoTypes", "Parse", "RunRaw")):
@@ -397,6 +443,9 @@ def main():
                model_impl_disagreements=len(set(m[0] for m in M)),
                checker_failures=len(V), known_finding_hits=sum(known_hits.values()),
                input_distribution=dist)
+    if reent_cov:
+        cov["reentrant_user_code"] = reent_cov
+        cov["evaluations"] += reent_cov["histories"]
     if name_cov:
         cov["callback_names"] = name_cov
     if id_cov:
